@@ -438,7 +438,7 @@ def counters_getitem(ctx, w, m, construct, paths):
         effs = effects(w, p)
         found = [e for e in effs if e.kind == 'L_GET']
         if not found:
-            ctx.ob('T9.count', construct, 'lookup consults the link table', False, loc=m.loc, path=p.describe())
+            ctx.unknown('T9.count', construct, 'the lookup does not read the link table on some path (found / not found cannot be told apart)', m.loc)
             continue
         first = found[0]
         hits = [e for e in effs if e.kind == 'COUNT' and e.key == 'hit_count']
@@ -524,8 +524,7 @@ def copy_observer(ctx, w, m, construct, paths):
             continue
         ctor = [o for o in p.ops if o.kind == 'call' and isinstance(o.info, tuple) and o.info[0] == 'class']
         if not ctor:
-            ctx.ob('T8.copy.src', construct, 'copy() builds a new cache of the same class', False, loc=m.loc,
-                   path=p.describe())
+            ctx.unknown('T8.copy.src', construct, 'no constructor call of the receiver class found', m.loc)
             continue
         c = ctor[-1]
         kws = {k.arg: k.value for k in c.val.keywords}
